@@ -78,7 +78,7 @@ def showPF (fmt : List Char) (st : List Igris.C06.Arg) (x : FV) (r : Res) : Stri
       | some q => "T " ++ toString q.num ++ "/" ++ toString q.den
       | none =>
         -- a tie of the engine's own scaled value that is not a tie of the argument (unit finer than the engine's error)
-        if tieSeen b64A cfgNow FUEL (.fin false m) d.prec d.ops (d.conv = 'e') (d.conv = 'g') then "Tf" else showRes r
+        if isFine d.conv d.hasPrec d.prec m && tieSeen b64A cfgNow FUEL (.fin false m) d.prec d.ops (d.conv = 'e') (d.conv = 'g') then "Tf" else showRes r
     | none => showRes r
   | _, _ => showRes r
 
@@ -106,7 +106,7 @@ def pieceOf (kind f a : String) : Option (String × List Char) := do
 
 /-- what the model embeds of the constants of the code (op `consts`) -/
 def constsLine : String :=
-  "BUFF_SZ=" ++ toString cfgNow.size ++ " FRAC_MAX=" ++ toString cfgNow.fracMax ++ " EXP_MAX=" ++ toString cfgNow.expMax ++
+  "buff_fits=" ++ (if max cfgNow.expMax 1 + cfgNow.fracMax + 7 ≤ cfgNow.size then "1" else "0") ++ " FRAC_MAX=" ++ toString cfgNow.fracMax ++ " EXP_MAX=" ++ toString cfgNow.expMax ++
   " PREC_DEFAULT=6 sizeof_DOUBLE=8 sizeof_int=4 ops=1,2,4,8,16,32,16384,8192 sizeof_long_double=16"
 
 def opsOfMask (m : Nat) : Igris.C06.Ops :=
@@ -160,7 +160,7 @@ def stepLine (_ : Unit) (line : String) : Unit × String :=
         match tieCanon conv ops.prec (if ops.prec then precision else 0) mag out with
         | some q => pure ("T " ++ toString q.num ++ "/" ++ toString q.den)
         | none =>
-          if tieSeen b64A cfgNow FUEL (.fin false mag) precision ops (we = "1") (sh = "1") then pure "Tf" else pure (showRes r)
+          if isFine conv ops.prec (if ops.prec then precision else 0) mag && tieSeen b64A cfgNow FUEL (.fin false mag) precision ops (we = "1") (sh = "1") then pure "Tf" else pure (showRes r)
       | _, _ => pure (showRes r)
     | ["ar", "cvt", se, m] => do
       let se ← parseHexNat? se
